@@ -1,0 +1,17 @@
+//go:build !verif
+// +build !verif
+
+// Package verifhook carries the verification-only hook points. Without the
+// "verif" build tag every function here is an empty, inlinable stub.
+package verifhook
+
+import "time"
+
+// Enabled reports whether the hooks are compiled in.
+const Enabled = false
+
+// Yield is a no-op without the verif build tag.
+func Yield(point string) {}
+
+// SyncInterval is always zero without the verif build tag.
+func SyncInterval() time.Duration { return 0 }
